@@ -307,6 +307,9 @@ def step (line : String) : String :=
       | "app" => (key.pub, msg ++ [UInt8.ofNat n], sig)
       | "key" => (flipBit key.pub n, msg, sig)
       | "splus" => (key.pub, msg, sig.take 32 ++ natLE 32 (leNat (sig.drop 32) + ell))
+      | "sneg" => (key.pub, msg, sig.take 32 ++ natLE 32 ((ell - leNat (sig.drop 32) % ell) % ell))
+      | "rneg" => (key.pub, msg, flipBit sig 255)
+      | "rsneg" => (key.pub, msg, (flipBit sig 255).take 32 ++ natLE 32 ((ell - leNat (sig.drop 32) % ell) % ell))
       | "trunc" => (key.pub, msg, sig.take n)
       | "ext" => (key.pub, msg, sig ++ hex! a)
       | _ => (key.pub, msg, sig)
